@@ -487,7 +487,7 @@ def W1(prop):
 
 
 def REGISTRY(prop):
-    return world_family("registry", "^TestW2Registry$", "registry", MON.NullMonitor, prop, "r.init",
+    return world_family("registry", "^TestW2Registry$", "registry", MON.RegistryMonitor, prop, "r.init",
                         "W2 registry: real TunnelServiceHandler and ReverseTunnelServers over grpc-go on bufconn in a synctest bubble; histories of "
                         "open (colliding / absent affinity keys), close from either end, routed RPCs through AsChannel / KeyAsChannel (the serving "
                         "instance reports itself and what its context carries), Ready / WaitForReady / AllReverseTunnels; every line compared with the "
